@@ -62,7 +62,9 @@ fn run_exe(var: &str, default: &str, scn: &str, pb: Option<u64>, budget_s: f64, 
         match child.try_wait() {
             Ok(Some(st)) => break Some(st),
             Ok(None) => {
-                if t0.elapsed().as_secs_f64() > budget_s {
+                // budget in CPU time of the loom process (wall only as a 5x backstop): a loaded machine must not shrink the search
+                let cpu = crate::driver::cpu_seconds_of(child.id()).unwrap_or(0.0);
+                if cpu > budget_s || t0.elapsed().as_secs_f64() > 5.0 * budget_s {
                     let _ = child.kill();
                     let _ = child.wait();
                     break None;
